@@ -134,11 +134,25 @@ func opSess(evs string) (string, string) {
 
 // ---------------------------------------------------------------- xpub
 
-func elemOf(e string) interface{} {
+// elemOf: g<i> key of member i announced by member i, f<i> announced by somebody else, k<i> without Publickey, o another type
+func elemOf(e string, ids [][]byte) interface{} {
 	if e == "o" {
 		return &dkg.Deal{Index: 1}
 	}
-	return &dkg.PublicKey{Index: uint32(atoi(e[1:])), Publickey: &vss.PublicKey{Binary: []byte{0}}}
+	idx := atoi(e[1:])
+	pk := &dkg.PublicKey{Index: uint32(idx)}
+	switch e[0] {
+	case 'k':
+		return pk
+	case 'f':
+		pk.Publickey = &vss.PublicKey{Binary: []byte{0}, SenderId: []byte("somebody else")}
+	default:
+		pk.Publickey = &vss.PublicKey{Binary: []byte{0}}
+		if idx < len(ids) {
+			pk.Publickey.SenderId = ids[idx]
+		}
+	}
+	return pk
 }
 
 func opXpub(ns, self, batches string) (string, string) {
@@ -153,13 +167,13 @@ func opXpub(ns, self, batches string) (string, string) {
 		ids[i] = []byte{byte(i)}
 	}
 	out, errc := dkg.VerifPExchangePub(ctx, selfc, peerc, ids, "s")
-	selfc <- elemOf(self)
+	selfc <- elemOf(self, ids)
 	go func() {
 		defer close(peerc)
 		for _, b := range splitList(batches, "|") {
 			var l []interface{}
 			for _, e := range splitList(b, ",") {
-				l = append(l, elemOf(e))
+				l = append(l, elemOf(e, ids))
 			}
 			select {
 			case peerc <- l:
@@ -185,6 +199,8 @@ func opXpub(ns, self, batches string) (string, string) {
 			}
 			if strings.Contains(e.Error(), "casting") {
 				res = "err cast"
+			} else if strings.Contains(e.Error(), dkg.ErrForeignPubKey.Error()) {
+				res = "err foreign"
 			} else {
 				res = "err other:" + h.OneLine(e.Error())
 			}
@@ -220,6 +236,8 @@ func dkgErrKind(e error) string {
 		return "badpk"
 	case strings.Contains(s, "duplicated public key index"):
 		return "dup"
+	case strings.Contains(s, "duplicated share public key"):
+		return "dupkey"
 	case strings.Contains(s, "UnmarshalBinary failed"):
 		return "unmarshal"
 	case strings.Contains(s, "own public key not found"):
